@@ -297,44 +297,96 @@ def lean_cfg(e):
     return f"(.{e[0]} [" + ", ".join(lean_cfg(a) for a in e[1]) + "])"
 
 
-def crate_imports(path):
-    """modules of this crate named in `use crate::...` items of a file"""
-    toks = tokenize(open(path, encoding="utf-8").read())
-    # drop `#[cfg(test)] mod <name> { ... }` blocks: they are not part of the library build
-    kept = []
+def item_extent(toks, k):
+    """toks[k] starts an item (after its attributes) -> index just past the item: the first `;`
+    outside parentheses / brackets, or the brace block that starts first"""
+    depth = 0
+    j = k
+    while j < len(toks):
+        t = toks[j]
+        if is_p(t, "(") or is_p(t, "["):
+            depth += 1
+        elif is_p(t, ")") or is_p(t, "]"):
+            depth -= 1
+        elif depth == 0 and is_p(t, ";"):
+            return j + 1
+        elif depth == 0 and is_p(t, "{"):
+            return matching(toks, j) + 1
+        j += 1
+    return len(toks)
+
+
+def cfg_features(e, where):
+    """a cfg expression that is a conjunction of features -> list of feature names"""
+    if e[0] == "feature":
+        return [e[1]]
+    if e[0] == "all":
+        out = []
+        for a in e[1]:
+            out += cfg_features(a, where)
+        return out
+    raise Untranslatable(f"{where}: cfg on an item that refers to crate modules is not a conjunction of features: {e!r}")
+
+
+def crate_refs(toks, conds, out, where):
+    """every `crate::<ident>` path (in `use crate::{a::.., b::..}` every first segment) in the
+    token list, with the features the enclosing `#[cfg(..)]` items require; `#[cfg(test)]`
+    items are not part of the library build and are skipped"""
     i = 0
     while i < len(toks):
-        if is_p(toks[i], "#") and i + 1 < len(toks) and is_p(toks[i + 1], "["):
-            path_, inner, j = split_attr(toks, i)
-            if path_ == ["cfg"] and inner is not None and [t.text for t in inner] == ["test"]:
-                k = j
-                while k < len(toks) and is_p(toks[k], "#"):
-                    _, _, k = split_attr(toks, k)
-                if k + 2 < len(toks) and toks[k].text == "mod" and is_p(toks[k + 2], "{"):
-                    i = matching(toks, k + 2) + 1
-                    continue
-        kept.append(toks[i])
-        i += 1
-    toks = kept
-    mods = []
-    i = 0
-    while i < len(toks):
-        if toks[i].kind == "ident" and toks[i].text == "use" and i + 3 < len(toks) \
-                and toks[i + 1].text == "crate" and is_p(toks[i + 2], ":") and is_p(toks[i + 3], ":"):
-            j = i + 4
-            end = j
-            while not is_p(toks[end], ";"):
-                end += 1
-            body = toks[j:end]
-            if body and is_p(body[0], "{"):
-                for part in split_commas(body[1:matching(body, 0)]):
-                    if part and part[0].kind == "ident":
-                        mods.append(part[0].text)
-            elif body and body[0].kind == "ident":
-                mods.append(body[0].text)
+        t = toks[i]
+        if is_p(t, "#") and i + 1 < len(toks) and is_p(toks[i + 1], "["):
+            # the attributes of one item
+            k = i
+            cfgs = []
+            while k + 1 < len(toks) and is_p(toks[k], "#") and is_p(toks[k + 1], "["):
+                path_, inner, k = split_attr(toks, k)
+                if path_ == ["cfg"] and inner is not None:
+                    cfgs.append(inner)
+            if not cfgs:
+                i = k
+                continue
+            end = item_extent(toks, k)
+            if any([x.text for x in c] == ["test"] for c in cfgs):
+                i = end
+                continue
+            extra = []
+            body = toks[k:end]
+            has_ref = any(body[x].text == "crate" and x + 2 < len(body) and is_p(body[x + 1], ":")
+                          for x in range(len(body)) if body[x].kind == "ident")
+            if has_ref:
+                for c in cfgs:
+                    extra += cfg_features(cfg_expr(c), where)
+            crate_refs(body, conds + extra, out, where)
             i = end
+            continue
+        if t.kind == "ident" and t.text == "crate" and i + 3 < len(toks) \
+                and is_p(toks[i + 1], ":") and is_p(toks[i + 2], ":"):
+            j = i + 3
+            if is_p(toks[j], "{"):
+                close = matching(toks, j)
+                for part in split_commas(toks[j + 1:close]):
+                    if part and part[0].kind == "ident":
+                        out.append((list(conds), part[0].text))
+                i = close + 1
+                continue
+            if toks[j].kind == "ident":
+                out.append((list(conds), toks[j].text))
+            i = j + 1
+            continue
         i += 1
-    return mods
+
+
+def crate_imports(path):
+    """(required features, name) for every `crate::<name>` reference of a file"""
+    toks = tokenize(open(path, encoding="utf-8").read())
+    out = []
+    crate_refs(toks, [], out, os.path.basename(path))
+    seen = []
+    for e in out:
+        if e not in seen:
+            seen.append(e)
+    return seen
 
 
 def features_tables(repo):
@@ -372,7 +424,9 @@ def features_tables(repo):
     for name, _ in gates:
         p = os.path.join(repo, "src", name + ".rs")
         if os.path.exists(p):
-            imports.append((name, [m for m in crate_imports(p)]))
+            known = {g[0] for g in gates} | set(plain)
+            # names that are not modules (items re-exported at the crate root) are always present
+            imports.append((name, [(c, m) for c, m in crate_imports(p) if m in known or m[:1].islower()]))
     # non-module names importable from the crate root regardless of features
     return dict(features=feats, optional=optional, gates=gates, amount_cfgs=amount_cfgs,
                 plain_modules=plain, imports=imports)
@@ -423,10 +477,12 @@ def emit_features(ft):
     o.append("]")
     o.append("/-- modules compiled unconditionally -/")
     o.append("def plainModules : List Text := [" + ", ".join(lean_text(x) for x in ft["plain_modules"]) + "]")
-    o.append("/-- `use crate::<module>` edges of each gated module -/")
-    o.append("def imports : List (Text × List Text) := [")
-    o.append(rows((f"({lean_text(m)}, [" + ", ".join(lean_text(x) for x in v) + "])", f"{m} uses {v}")
-                  for m, v in ft["imports"]))
+    o.append("/-- `crate::<module>` references of each gated module: (features the enclosing `#[cfg]` items")
+    o.append("require, module referred to) -/")
+    o.append("def imports : List (Text × List (List Text × Text)) := [")
+    o.append(rows((f"({lean_text(m)}, [" + ", ".join(
+        "([" + ", ".join(lean_text(c) for c in cs) + "], " + lean_text(x) + ")" for cs, x in v) + "])",
+        f"{m} uses {v}") for m, v in ft["imports"]))
     o.append("]")
     o.append("end Qty.Gen.Features")
     return "\n".join(o) + "\n"
